@@ -51,6 +51,10 @@ def modval(rnd: random.Random, kinds="all") -> str:
             return f"{t}:{b}"
         return "s:" + rnd.choice(MASSY)
     if kinds == "num" or (kinds == "all" and r < 0.35):
+        if rnd.random() < 0.3:    # any decimal: 1..10 decimals, written as Python writes it (no exponent form)
+            x = round(rnd.uniform(-300, 300) * rnd.choice([1, 1, 0.01, 0.0001]), rnd.randint(1, 10))
+            if "e" not in repr(x) and x != 0:
+                return f"f:{x!r}"
         t, b = rnd.choice(NUMS)
         return f"{t}:{b}"
     if kinds == "massy":   # values whose mass is known a priori
